@@ -773,7 +773,7 @@ HEADER = """import sys
 from typing import Any, Dict, List, Union
 from typing_extensions import Literal
 from pyanalyze.extensions import evaluated, is_of_type, is_provided, is_positional, is_keyword, show_error
-from harness.universe import A, B, Cc, D, Color, IE
+from harness.universe import A, B, Cc, D, Color, IE, Fl
 """
 
 
